@@ -172,6 +172,29 @@ klass("ResourceSet", iter=_set_iter("ResourceSet"), len="len(self._properties)")
 
 def _node_setitem(ex, st, base, idxnode, v, node):
     # node[("attr", scIdx)] = value
+    if isinstance(idxnode, ast.Tuple) and len(idxnode.elts) == 2 and not isinstance(idxnode.elts[0], ast.Constant):
+        # computed attribute name: a conditional choice between string constants
+        kv = ex.ev(idxnode.elts[0], st)
+        if kv.ty is not T.Str:
+            raise Unsupported("node[...] = v with a non-string attribute key", node)
+        sc = ex.ev(idxnode.elts[1], st)
+        total = []
+        for name, ty in list(REG.attrs.items()):
+            cond = z3.simplify(kv.t == T.mk_str(name).t)
+            if z3.is_false(cond):
+                continue
+            try:
+                newv = T.coerce(v, ty) if not isinstance(v.ty, T.Opt) or isinstance(ty, T.Opt) else None
+            except T.TypeErr:
+                newv = None
+            if newv is None:
+                raise Unsupported(f"computed attribute key may denote '{name}' whose type does not fit the value", node)
+            old = ex.h.get_attr(st, base.t, name, sc.t, ty)
+            ex.h.set_attr(st, base.t, name, sc.t, ty, T.ite(cond, newv, old))
+            total.append(cond)
+        ex.oblige(st, "safety", f"attr-key@{getattr(node, 'lineno', 0)}", z3.Or(*total) if total else z3.BoolVal(False), node,
+                  "computed attribute name is one of the declared attributes")
+        return
     if not (isinstance(idxnode, ast.Tuple) and len(idxnode.elts) == 2 and isinstance(idxnode.elts[0], ast.Constant)):
         raise Unsupported("node[...] = v with a non-literal attribute key", node)
     name = idxnode.elts[0].value
